@@ -146,6 +146,7 @@ def gen_lut(rng, uid, stream='N6'):
           'ports': [['a', 'in', f'Bits{W}'], ['out', 'out', f'Bits{W}'], ['o1', 'out', 'Bits1']],
           'attrs': [f's.lut = [ ' + ', '.join(f'Bits{K}( {v} )' for v in vals) + ' ]']}
   E = f's.lut[ {idx} ]'
+  if rng.random() < 0.3: E = '~' + E          # a unary operator directly on the constant element
   r = rng.random()
   if r < 0.4: case['body'] = [f's.out @= s.a {rng.choice(["+", "&", "|", "^"])} {E}']
   elif r < 0.55: case['body'] = [f's.out @= {E} + s.a']
